@@ -22,6 +22,8 @@ func init() {
 		ruleW2(c, "C09.A6")
 		ruleSlot(c, "C09.A7")
 		ruleRefused(c, "C09.A8")
+		ruleR3(c, "C09.A9")
+		ruleW1(c, "C09.A10")
 	}
 }
 
